@@ -12,7 +12,8 @@ cancel while a child's result is in flight, stop between a task completion and i
   correspondence  the DB tree (workflow executions with state and state_info, their task executions with state, the
                   sub-workflow executions of those) is abstracted before and after every operator request and every
                   delivery of a failed / cancelled child's result to its parent and compared with coq/Model/StopTree.v
-                  (stop_at / pause_at / resume_at / deliver_at evaluated by vm_compute)
+                  (stop_at / pause_at / resume_at / deliver_at / notify_at evaluated by vm_compute; notify = the scheduled job that
+                  reports the pause / resume of a sub-workflow to its with-items parent task)
   oracle          the property text: C11 - an accepted stop holds the requested state with the given message until the
                   end, output included; after a cancel every descendant that was unfinished is CANCELLED at once and its
                   parent task is CANCELLED once the run has drained; every finished sub-workflow is reported to its parent
@@ -50,7 +51,8 @@ LEVELS = ['main', 'sub1', 'sub2', 'sub3']
 FINAL = ('SUCCESS', 'ERROR', 'CANCELLED')
 RULE = ('programs: call chain main -> sub1 -> sub2 -> sub3 of depth 0-3, per level one or two sub-workflow tasks (plain or with-items '
         'over 2 instances) and an optional parallel asynchronous branch, leaf = asynchronous action + follow-up; 1-4 operator requests '
-        '(stop SUCCESS/ERROR/CANCELLED, pause, resume; 45% of the cases pause first and cancel later) on the root or a nested execution, '
+        '(stop SUCCESS/ERROR/CANCELLED, pause, resume; 25% pause first and cancel later; 20% pause one item\'s sub-workflow of a with-items task / pause, '
+        'resume one item, pause again) on the root or a nested execution, '
         'each k events after the previous one; schedules: seeded random walk over the enabled events and the completions of the '
         'asynchronous actions (25% default scheduler); distinct = distinct case; non-trivial = at least 8 events')
 
@@ -68,7 +70,23 @@ def gen_case(rng, i=0):
     r = rng.random()
     msgs = ['m1', 'm2', 'm3', 'm4']
     sel = lambda: {'depth': rng.choice([0, 0, 1, 1, 2, 3]), 'pick': rng.randrange(8)}   # noqa
-    if r < 0.45:
+    if r < 0.2 and depth >= 1:
+        # a with-items sub-workflow task with both items in flight: (a) pause ONE item's sub-workflow (the pause is reported upwards
+        # by a scheduled job and must come down again to the sibling), (b) pause the parent, resume one item's sub-workflow only,
+        # pause the parent again
+        lv = rng.randrange(depth)
+        calls[lv][0] = 'items'
+        one = {'depth': lv + 1, 'pick': rng.randrange(8)}
+        if rng.random() < 0.5:
+            ops = [{'op': 'pause', 'target': one}]
+            if rng.random() < 0.5:
+                ops.append({'op': 'resume', 'target': {'depth': rng.choice([0, lv]), 'pick': 0}})
+        else:
+            par = {'depth': lv, 'pick': rng.randrange(8)}
+            ops = [{'op': 'pause', 'target': par}, {'op': 'resume', 'target': one}, {'op': 'pause', 'target': dict(par)}]
+        for o in ops:
+            o['late'] = True
+    elif r < 0.45:
         ops = [{'op': 'pause', 'target': sel()}, {'op': 'stop', 'state': 'CANCELLED', 'target': sel()}]
         if rng.random() < 0.3:
             ops.append({'op': 'resume', 'target': sel()})
@@ -86,6 +104,8 @@ def gen_case(rng, i=0):
             ops.append(o)
     for j, o in enumerate(ops):
         o['k'] = rng.randrange(0, 14) if j == 0 else rng.randrange(0, 8)
+        if o.pop('late', False) and j == 0:
+            o['k'] = rng.randrange(8, 40)      # late enough for the sub-workflows of the items to exist
         if o['op'] == 'stop':
             o['msg'] = msgs[j]
     return {'depth': depth, 'calls': calls, 'side': side, 'ops': ops, 'seed': rng.randrange(1 << 30),
@@ -304,6 +324,8 @@ class Run:
                 label = 'job:%s' % j['func']
                 if j['func'] == '_scheduled_on_action_complete' and (j['args'] or {}).get('wf_action'):
                     handoff = ('job', j['args']['action_ex_id'])
+                if j['func'] == '_scheduled_on_action_update' and (j['args'] or {}).get('wf_action'):
+                    handoff = ('update', j['args']['action_ex_id'])
         self.note_sent_before()
         before = self.snap() if handoff else None
         out = d.fire(ev)
@@ -316,7 +338,11 @@ class Run:
             after = self.snap()
             child = handoff[1]
             pt = before['wf'].get(child, {}).get('ptask')
-            if pt is not None and pt in before['task']:
+            if handoff[0] == 'update':
+                # the pause / resume of a sub-workflow is reported to its with-items parent task
+                if child in before['wf']:
+                    self.model_event('notify', before, after, child, out, self.labels[-1])
+            elif pt is not None and pt in before['task']:
                 items = before['task'][pt]['items']
                 # a Plain parent task processes the result when the message is delivered, an Items one in the scheduled job
                 if (handoff[0] == 'rpc' and not items) or (handoff[0] == 'job' and items):
@@ -345,10 +371,23 @@ class Run:
     def after_any_event(self):
         """oracles that hold at every point of the run"""
         self.count_new_handoffs()
-        if not self.held and not self.frozen:
-            return
         snap = snapshot(self.d)
         pth = paths(snap)
+        # C10: whenever an execution BECOMES PAUSED - by an operator request or because the pause of one of its
+        # sub-workflows was reported upwards (at once through a Plain task, by a scheduled job through a with-items task) -
+        # no sub-workflow below it is left RUNNING
+        prev = getattr(self, 'prev_states', {})
+        for w, r in snap['wf'].items():
+            if r['state'] == 'PAUSED' and prev.get(w) not in (None, 'PAUSED'):
+                left = [s for s in descendants(snap, w) if snap['wf'][s]['state'] == 'RUNNING']
+                if left:
+                    pt = snap['task'].get(snap['wf'][left[0]]['ptask'], {})
+                    self.fail('pause:running-sub-workflow-below-newly-paused-workflow:%s-task' % ('with-items' if pt.get('items') else 'plain'),
+                              'workflow %s became PAUSED (%s) while its sub-workflow %s is RUNNING (parent task %s is %s)' % (
+                                  pth.get(w), self.labels[-1] if self.labels else '?', [pth.get(s) for s in left], pt.get('name'), pt.get('state')))
+        self.prev_states = {w: r['state'] for w, r in snap['wf'].items()}
+        if not self.held and not self.frozen:
+            return
         for w, exp in self.held.items():
             r = snap['wf'].get(w)
             if r is None:
@@ -498,6 +537,8 @@ class Run:
             expr = 'show_result (pause_at %s %s)' % (path, term)
         elif kind == 'resume':
             expr = 'show_result (resume_at %s %s)' % (path, term)
+        elif kind == 'notify':
+            expr = 'show_result (notify_at %s %s)' % (path, term)
         else:
             expr = 'show_result (deliver_at %s %s)' % (path, term)
         impl_tree, _ = self.coq_tree(after, before, show=True)
@@ -686,7 +727,7 @@ def run(ctx, n_cases, suite='engine_stoptree', props=('C11', 'C10')):
         if c.get('corpus'):
             got = sorted(set(f['signature'] for f in r['failures']))
             stats['corpus:%s:%s' % (c['corpus'], 'as-expected' if got == sorted(c['expect']) else 'DIFFERENT %s' % got)] += 1
-    n_model = check_model(ctx, results, suite, kinds=None if 'C11' in props else ('pause', 'resume'))
+    n_model = check_model(ctx, results, suite, kinds=None if 'C11' in props else ('pause', 'resume', 'notify'))
     st = ctx.cov['suites'].setdefault(suite, {})
     st['input_distribution'] = dict(dist)
     st['observed'] = dict(stats)
